@@ -887,11 +887,24 @@ def rule_lut(rep: Report, stl: Stl, w: int = 64) -> None:
             if role_ == 'clean_table_entry' and not (nx is not None and nx[0] == 'call' and nx[1].endswith('clean_table_entry__table')):
                 bad_next.append((-1, {lab_: 1}, {'<the label in front of clean_table_entry__table>': 1}))
             if role_ == 'flip_carry':
+                benv = dict(base)
+                if nx is not None and nx[0] == 'call':
+                    # the table line moved into a helper macro invoked once: read the helper's single rep with its parameters bound to
+                    # the arguments (the same ops are emitted in the same place)
+                    hm = stl.macros.get((nx[1], len(nx[2])))
+                    hbody = [x_ for x_ in (hm.body if hm else []) if x_[0] != 'label']
+                    if hm is not None and len(hbody) == 1 and hbody[0][0] == 'rep':
+                        try:
+                            for p_, a_ in zip(hm.params, nx[2]):
+                                benv[p_] = ev(a_, base)
+                            nx = hbody[0]
+                        except (NeedConcrete, OpaqueValue, AnalysisError):
+                            pass
                 okf = nx is not None and nx[0] == 'rep' and nx[3] == 'stl.fj' and len(nx[4]) == 2
                 if okf:
                     try:
-                        f0 = ev(nx[4][0], {**base, nx[2]: 5})
-                        j0 = ev(nx[4][1], {**base, nx[2]: 5})
+                        f0 = ev(nx[4][0], {**benv, nx[2]: 5})
+                        j0 = ev(nx[4][1], {**benv, nx[2]: 5})
                         okf = f0.get('', 0) == base['dbit'] + 8 and len([k for k in f0 if k != '']) == 1 and \
                             j0.get(roles.get('clean_table_entry', '?'), 0) == 1 and j0.get('', 0) == 5 * dw and conc(ev(nx[1], base)) == 256
                     except (NeedConcrete, OpaqueValue, AnalysisError):
